@@ -14,16 +14,16 @@ Obligations checked on every run (see design/C04.md):
 import json, os, re, subprocess, sys, time, glob
 from vlib import *
 
-MODELLED = ["plain", "nullproto", "arrow", "bound", "class", "strobj", "sargs", "args", "u8"]
+MODELLED = ["plain", "nullproto", "arrow", "bound", "class", "strobj", "sargs", "args", "u8", "func"]
 ARRAYS = ["arr", "sparr"]                       # dense [101,102,103] / sparse (a[5000]) arrays: monitored (modelled by C07)
 TEMPLATED = ["fproto", "aproto", "sproto", "dproto", "taproto", "mapproto", "setproto", "promproto", "symproto", "regproto",
              "json", "math", "global"]           # lazily-templated built-in prototypes / namespace objects (fresh runtime per case)
-MONITORED = ARRAYS + TEMPLATED + ["func", "gomap", "goslice", "gostruct", "dyn", "dynarr"]
+MONITORED = ARRAYS + TEMPLATED + [ "gomap", "goslice", "gostruct", "dyn", "dynarr"]
 # kinds for the key-kind metamorphic check (no model of the kind needed): every kind with hand-written Str/Idx method copies
 META_KINDS = ["goslice", "gomap", "gostruct", "dyn", "dynarr", "u8", "args", "sargs", "strobj", "arr", "sparr", "func", "plain"]
 GENERAL_MONITORED = [k for k in MONITORED if k not in TEMPLATED or k in ("math", "global")]
 WRAPPERS = {"gomap", "goslice", "gostruct", "dyn", "dynarr"}          # documented non-ordinary variants: key order not checked
-DEFAULT_PROTO = {"plain": "O", "nullproto": "null", "arrow": "F", "bound": "F", "class": "F", "strobj": "?", "sargs": "O", "args": "O", "u8": "?"}
+DEFAULT_PROTO = {"plain": "O", "nullproto": "null", "arrow": "F", "bound": "F", "class": "F", "strobj": "?", "sargs": "O", "args": "O", "u8": "?", "func": "F"}
 
 # well-known symbols are SYM[3..] of the harness prelude
 WK = {"iterator": "y3", "hasInstance": "y4", "toStringTag": "y5", "toPrimitive": "y6", "unscopables": "y7", "match": "y9",
@@ -711,6 +711,7 @@ def shrink_case(ctx, h, model, case):
 
 SIG_ARGS_ITER = "argumentsObject:iterator-hides-mapped-slot-flags"
 SIG_TA_DELETE = "typedArray:delete-formats-error-message-eagerly"
+SIG_FUNC_PROTO_POS = "funcObject:prototype-key-position-depends-on-materialisation"
 
 
 def seq_signature(case, lines=None, dd=None, a=None, b=None):
@@ -723,6 +724,13 @@ def seq_signature(case, lines=None, dd=None, a=None, b=None):
             return re.sub(r"(fz|sl)=[tf]|forin=\[[^\]]*\]", "_", strip_impl(l)[0])
         if blank(a[dd]) == blank(strip_model(b[dd])):
             return SIG_ARGS_ITER
+    if a is not None and b is not None and dd is not None and dd < len(a) and dd < len(b) \
+            and any(k == "func" for k, _ in case["objs"]):
+        def noproto(l):
+            l = re.sub(r"sprototype(:[^,\]]*)?,?", "", strip_impl(l)[0])
+            return l.replace(",]", "]")
+        if noproto(a[dd]) == noproto(strip_model(b[dd])):
+            return SIG_FUNC_PROTO_POS
     if a is not None and b is not None and lines is not None and dd is not None and dd < len(a) and dd < len(b) and dd < len(lines):
         op = lines[dd].split()
         if op[0] == "del" and op[1] in ("S", "R") and op[2][1:].isdigit() and int(op[2][1:]) < len(case["objs"]) \
@@ -753,13 +761,14 @@ def main(ctx):
     have_tie = os.path.exists(os.path.join(ROOT, "extract", "c04.go"))
     if have_tie:
         ctx.regen()
-    targets = ["GojaModel.C04.Props", "model_c04"] + (["GojaModel.C04.Tie"] if have_tie else [])
+    targets = ["GojaModel.C04.Props", "GojaModel.C04.PropsArray", "model_c04"] + (["GojaModel.C04.Tie"] if have_tie else [])
     ok, errs = ctx.lake_build(targets)
     lean_ok = ok
     if not ok:
         # a broken theorem / tie must not take the model driver away from the search
         sh(["lake", "build", "model_c04"], cwd=LEAN, timeout=3000)
-    names = ctx.audit("GojaModel.C04.Props", expect_min=37)
+    names = ctx.audit("GojaModel.C04.Props", expect_min=39)
+    ctx.audit("GojaModel.C04.PropsArray", expect_min=2)          # rests on lean/GojaModel/C07 (array abstraction)
     if have_tie and ok:
         ctx.audit("GojaModel.C04.Tie", expect_min=1)
     if ctx.tier == "thorough" and ok:
